@@ -25,7 +25,8 @@ CodeBytes == 81920
 FlagJit == 8
 FlagLarge == 1
 HasFlag(x, bit) == (x \div bit) % 2 = 1
-FlagsOf(ev) == [jit |-> HasFlag(ev.flags, FlagJit), large |-> HasFlag(ev.flags, FlagLarge)]
+FlagsOf(ev) == [jit |-> HasFlag(ev.flags, FlagJit), large |-> HasFlag(ev.flags, FlagLarge),
+                key |-> ("keyLong" \in DOMAIN ev /\ ev.keyLong)]
 
 \* requests (allocations and mappings) among the OS events of a call, in order
 IsReq(o) == o.k \in {"a", "M"}
